@@ -329,6 +329,13 @@ def ite(c, a, b):
         return b
     if a == b:
         return a
+    # under condition c an inner test of the same condition is decided
+    if a[0] == 'ite' and a[1] is c:
+        a = a[2]
+    if b[0] == 'ite' and b[1] is c:
+        b = b[3]
+    if a == b:
+        return a
     return mk('ite', c, a, b)
 
 
